@@ -507,6 +507,23 @@ Definition meta_msgs (L : dirent) : list msg :=
   map msg_of_file (sel is_sym_name L) ++
   map msg_of_file (sel is_dbg_name L) ++
   map msg_of_info (sel (list_eqb n_info) L).
+(* the same with a file sent in several pieces (the receiver appends every piece to the file of that name):
+   [chunk c] = the payloads of the messages for a file with content c.  The code sends one message per file. *)
+Definition msgs_of_file (chunk : bytes -> list bytes) (e : bytes * bytes) : list msg := map (MMeta (fst e)) (chunk (snd e)).
+Definition meta_msgs_c (chunk : bytes -> list bytes) (L : dirent) : list msg :=
+  flat_map (msgs_of_file chunk) (sel (list_eqb n_task) L) ++
+  flat_map (msgs_of_file chunk) (sel is_map_name L) ++
+  flat_map (msgs_of_file chunk) (sel is_sym_name L) ++
+  flat_map (msgs_of_file chunk) (sel is_dbg_name L) ++
+  map msg_of_info (sel (list_eqb n_info) L).
+Definition whole (c : bytes) : list bytes := [c].          (* cmds/recv.c send_trace_metadata: iov[3] = the whole file *)
+(* pieces of at most n bytes, at least one piece (an example of another chunking) *)
+Fixpoint pieces (fuel n : nat) (c : bytes) : list bytes :=
+  match fuel with
+  | O => [c]
+  | S f => if (length c <=? n)%nat then [c] else firstn n c :: pieces f n (skipn n c)
+  end.
+
 (* the names the sequence above covers *)
 Definition sent_name (n : bytes) : bool :=
   list_eqb n_task n || is_map_name n || is_sym_name n || is_dbg_name n || list_eqb n_info n.
